@@ -17,6 +17,15 @@ func genHist(g *hx.Gen, out *hx.Out) {
 	for i := 0; i < total; i++ {
 		sets = append(sets, genOne(g, i))
 	}
+	if hx.Serial() {
+		for i := range sets {
+			id := fmt.Sprintf("h%d", i)
+			hx.MarkRunning(id, "hist", sets[i])
+			a, o := execHist(sets[i])
+			out.Case(id, "hist", a, o)
+		}
+		return
+	}
 	// run in parallel, then write in order (each history owns its agents and sockets)
 	type res struct {
 		args, out []string
@@ -140,7 +149,9 @@ func genOne(g *hx.Gen, i int) []string {
 		}
 	}
 	slept := false
-	pass := []string{"pw", "", "other"}
+	// long passphrases that agree on a long prefix: nothing may compare only part of a passphrase
+	long := strings.Repeat("p", 64)
+	pass := []string{"pw", "", "other", "pw", long + "-tail-A", long + "-tail-B", long, "pw2"}
 	locked, lockPass := false, ""
 	for j := 0; j < nops; j++ {
 		var op string
